@@ -202,6 +202,33 @@ mod verif_rp_c14_actor {
         assert_eq!(held, 100, "WITNESS store handed back by shutdown holds {held} of 100 acknowledged writes");
     }
 
+    /// The two open options are independent: whichever order they are given in, an open with sync and a subscriber enables sync AND registers
+    /// the subscriber (first open and additional open alike).
+    #[tokio::test]
+    async fn open_options_are_independent_of_their_order() {
+        let mut rng = rand::rng();
+        let ns = NamespaceSecret::new(&mut rng);
+        let author = Author::new(&mut rng);
+        for first_open in [true, false] { for sync_last in [true, false] {
+            let mut store = Store::memory();
+            store.import_namespace(ns.clone().into()).unwrap();
+            store.import_author(author.clone()).unwrap();
+            let handle = SyncHandle::spawn(store, None, "verif".to_string());
+            let id = ns.id();
+            if !first_open { handle.open(id, OpenOpts::default()).await.unwrap(); }
+            let (tx, rx) = async_channel::bounded(8);
+            let opts = if sync_last { OpenOpts::default().subscribe(tx).sync() } else { OpenOpts::default().sync().subscribe(tx) };
+            handle.open(id, opts).await.unwrap();
+            let st = handle.get_state(id).await.unwrap();
+            let ctx = format!("(first open: {first_open}; options built as {})", if sync_last { "subscribe().sync()" } else { "sync().subscribe()" });
+            assert!(st.sync, "WITNESS open with sync and a subscriber did not enable sync {ctx}");
+            assert_eq!(st.subscribers, 1, "WITNESS open with sync and a subscriber registered {} subscribers {ctx}", st.subscribers);
+            handle.insert_local(id, author.id(), b"k".to_vec().into(), iroh_blobs::Hash::new(b"v"), 1).await.unwrap();
+            assert!(rx.try_recv().is_ok(), "WITNESS the subscriber given at open received no event {ctx}");
+            handle.shutdown().await.unwrap();
+        } }
+    }
+
     #[tokio::test]
     async fn every_gated_request_follows_the_open_state() {
         let mut rng = rand::rng();
